@@ -865,7 +865,10 @@ def concretize(x, cap=512):
             ctx.sampled = True
         else:
             ctx.work.append(ctx.trace + [('x', excluded + [v])])
-            ctx.conc_forks += 1
+            if x.hi - x.lo > 64:
+                # forks over a small domain are deliberate enumerations
+                # (ctx.choice); only wide domains count as "exploding"
+                ctx.conc_forks += 1
         ctx.decisions += 1
     else:
         ctx.forced += 1
